@@ -391,6 +391,22 @@ def b64enc : List UInt8 → List Char
     b64chars.getD (n >>> 18) 'A' :: b64chars.getD ((n >>> 12) % 64) 'A' ::
       b64chars.getD ((n >>> 6) % 64) 'A' :: b64chars.getD (n % 64) 'A' :: b64enc rest
 
+def b32chars : List Char := "ABCDEFGHIJKLMNOPQRSTUVWXYZ234567".toList
+
+def b32go : Nat → List Nat → List Char
+  | 0, _ => []
+  | fuel + 1, bits =>
+    if bits.isEmpty then [] else
+    let g := bits.take 5
+    let g' := g ++ List.replicate (5 - g.length) 0
+    b32chars.getD (g'.foldl (fun a b => a * 2 + b) 0) 'A' :: b32go fuel (bits.drop 5)
+
+/-- RFC 4648 base32 with padding (jq's `@base32`; succinctly has no such format) -/
+def b32enc (bs : List UInt8) : List Char :=
+  let bits := bs.flatMap fun b => (List.range 8).map fun i => (b.toNat >>> (7 - i)) % 2
+  let cs := b32go (bits.length + 1) bits
+  cs ++ List.replicate ((8 - cs.length % 8) % 8) '='
+
 def b64val (c : Char) : Option Nat :=
   if 'A' ≤ c && c ≤ 'Z' then some (c.toNat - 65)
   else if 'a' ≤ c && c ≤ 'z' then some (c.toNat - 97 + 26)
@@ -470,6 +486,11 @@ def applyFormat (d : Dialect) (name : String) (v : JV N) : Res N :=
     (match v with
      | .str s => ok (String.ofList (b64enc (strBytes s)))
      | v => if d.succinctly then none else (toText v).bind fun s => ok (String.ofList (b64enc (strBytes s))))
+  | "@base32" =>
+    if d.succinctly then none else
+    (match v with
+     | .str s => ok (String.ofList (b32enc (strBytes s)))
+     | v => (toText v).bind fun s => ok (String.ofList (b32enc (strBytes s))))
   | "@base64d" =>
     (match v with
      | .str s =>
